@@ -82,6 +82,7 @@ structure Mon where
   tokByte : Nat → Int := fun _ => 0
   waitTok : Nat → Int := fun _ => 0    -- token passed to the wait in progress
   left : Nat → Bool := fun _ => false  -- last poll of the thread saw a different phase
+  curOp : Nat → String := fun _ => ""
   viol : List String := []
 
 def Mon.v (m : Mon) (msg : String) : Mon := { m with viol := msg :: m.viol }
@@ -116,8 +117,13 @@ def monStep (m : Mon) (l : Line) : Mon :=
     let m := if l.b != ne then
       m.v s!"phase {m.phases}: expected after {m.drops} drop(s) is {l.b}, should be {ne}" else m
     { m with expected := l.b, drops := 0, phases := m.phases + 1, byte := l.a, arrived := 0, lasts := 0, compls := 0 }
-  | "inv.wait" => { m with waitTok := upd m.waitTok t l.a, left := upd m.left t false }
-  | "inv.aw" => { m with left := upd m.left t false }
+  | "inv.wait" => { m with waitTok := upd m.waitTok t l.a, left := upd m.left t false, curOp := upd m.curOp t l.site }
+  | "inv.aw" | "inv.arrive" | "inv.drop" => { m with left := upd m.left t false, curOp := upd m.curOp t l.site }
+  | "ret" =>
+    -- departure from wait / arrive_and_wait: the phase of the thread's token must be published
+    if (m.curOp t == "inv.wait" || m.curOp t == "inv.aw") && m.phases ≤ m.tokPhase t then
+      m.v s!"thread {t} returned from {m.curOp t} of phase {m.tokPhase t} before that phase was published ({m.phases} published)"
+    else m
   | "bar.polled" =>
     if l.b != l.a then
       -- the waiter leaves: the phase its token belongs to must have been published
